@@ -163,6 +163,19 @@ func ForEco(name string) Scenario {
 		"cran":       {"1.2-10", "1.2.2", "1.2-3.1"},
 	}[name]
 	inputs = append(inputs, extra...)
+	// the first bound with a pre-release and a post-release marker: equal numeric parts, so the
+	// comparison is decided by the marker tables (first-use / cold-start state in those paths)
+	preM := map[string]string{"semver": "-alpha", "npm": "-alpha", "cargo": "-alpha", "hex": "-alpha", "golang": "-alpha", "nuget": "-alpha", "conan": "-alpha", "pypi": "a1", "debian": "~rc1", "rpm": "~rc1",
+		"maven": "-alpha", "gem": ".rc1", "alpine": "_rc1", "gentoo": "_rc1", "alpm": "rc1", "apache": "-RC1", "composer": "-beta", "github": "-rc.1", "mattermost": "-rc1"}[name]
+	postM := map[string]string{"alpine": "_p1", "gentoo": "_p1", "debian": "-1", "rpm": "-1", "pypi": ".post1", "maven": "-sp1"}[name]
+	var marked []string
+	if preM != "" {
+		marked = append(marked, va+preM)
+	}
+	if postM != "" {
+		marked = append(marked, va+postM)
+	}
+	inputs = append(inputs, marked...)
 	for _, q := range quads {
 		inputs = append(inputs, q[0], q[1], q[2], q[3])
 	}
@@ -273,6 +286,9 @@ func ForEco(name string) Scenario {
 				return rg.String()
 			}},
 		)
+	}
+	for _, m := range marked {
+		ops = append(ops, cmp(va, m), cmp(m, va))
 	}
 	if r5 != "" {
 		ops = append(ops, contains(r5, vb), contains(r5, va), contains(r5, vc))
